@@ -47,6 +47,10 @@ def mk_time(ts, t):
                            length=len(p), time_unit=t["u"])
         assert [int(x) for x in np.asarray(a)] == [int(x) for x in p], "harness: UniformTime construction"
         return a
+    if t["sc"] and via == "elem":
+        b = ts.TimeArray(np.array([t["p"][0], 5], dtype=np.int64), time_unit="ps")
+        b.convert_unit(t["u"])
+        return ts.TimeArray(b[0])            # an element, re-wrapped without a unit
     if t["sc"]:
         a = ts.TimeArray(np.int64(t["p"][0]), time_unit="ps")
     elif via == "slice":
@@ -60,6 +64,16 @@ def mk_time(ts, t):
     elif via == "copy":
         import copy as _copy
         a = _copy.copy(ts.TimeArray(np.array(t["p"], dtype=np.int64), time_unit="ps"))
+    elif via in ("rewrap", "rewrap_nocopy", "rewrap_list"):
+        # the same instants re-wrapped WITHOUT naming a unit (the unit is inherited from the wrapped object):
+        # re-wrapping must not change how the object reads bare numbers afterwards
+        b = ts.TimeArray(np.array(t["p"], dtype=np.int64), time_unit="ps")
+        b.convert_unit(t["u"])
+        if via == "rewrap":
+            return ts.TimeArray(b)
+        if via == "rewrap_nocopy":
+            return ts.TimeArray(b, copy=False)
+        return ts.TimeArray([b[i] for i in range(len(t["p"]))])
     else:
         a = ts.TimeArray(np.array(t["p"], dtype=np.int64), time_unit="ps")
     a.convert_unit(t["u"])
@@ -416,8 +430,10 @@ def gen_tarr(rng, maxlen=4, lim=LIM // 4, scalar=None):
         else:
             p.append(gen_int_for(rng, 1, lim))           # any picosecond count
     t = {"p": p, "u": u, "sc": sc}
-    if not sc and rng.random() < 0.25:
-        t["via"] = rng.choice(["slice", "stride", "ufunc", "copy"])
+    if not sc and rng.random() < 0.4:
+        t["via"] = rng.choice(["slice", "stride", "ufunc", "copy", "rewrap", "rewrap_nocopy", "rewrap_list"])
+    elif sc and rng.random() < 0.25:
+        t["via"] = "elem"
     return t
 
 
